@@ -574,50 +574,231 @@ def dictIndexPage {α} [BEq α] (xs : List α) : List Nat :=
   let bw := numRequiredBits (us.length - 1)
   bw :: rleEncode bw (xs.map (fun x => us.idxOf x))
 
-/-! ### record assembly from levels (the reader side of Dremel) -/
+/-! ### `LevelInfoBuilder` (arrow_writer/levels.rs): the run-batched writer along one leaf path
 
-/-- parse one value of path `p` from the entry stream: `d` = definition level reached so
-far, `k` = number of enclosing lists.  `fuel` bounds the recursion (entries consumed). -/
-def assemble : (p : List Layer) → (fuel d k : Nat) → List Entry → Option (ValOf p × List Entry)
-  | [], _, _, _, es =>
+What the builder produces for one leaf is `ArrayLevels`: repetition levels, definition levels
+and `non_null_indices` (indices into the leaf array).  `Lv` is that triple (an absent level
+stream — `max_rep_level = 0` or `max_def_level = 0` — is represented by its constant value). -/
+
+structure Lv where
+  reps : List Nat
+  defs : List Nat
+  idxs : List Nat
+  deriving DecidableEq, Repr
+
+def Lv.nil : Lv := ⟨[], [], []⟩
+def Lv.app (a b : Lv) : Lv := ⟨a.reps ++ b.reps, a.defs ++ b.defs, a.idxs ++ b.idxs⟩
+/-- `extend_uniform_levels(def, rep, count)` / `append_*_level_run` -/
+def Lv.uniform (r d n : Nat) : Lv := ⟨List.replicate n r, List.replicate n d, []⟩
+def Lv.cat (xs : List Lv) : Lv := xs.foldr Lv.app Lv.nil
+
+/-- physical Arrow arrays along one leaf path.  `valid = none`: no validity buffer.  The leaf
+values themselves do not matter for level generation (its length does). -/
+inductive PArr where
+  | leaf (nullable : Bool) (valid : Option (List Bool)) (len : Nat)
+  | strct (nullable : Bool) (valid : Option (List Bool)) (child : PArr)
+  | list (nullable : Bool) (valid : Option (List Bool)) (offsets : List Nat) (child : PArr)
+  deriving Repr
+
+/-- `NullBuffer::is_valid(i)` -/
+def isValidAt (valid : Option (List Bool)) (i : Nat) : Bool :=
+  match valid with
+  | none => true
+  | some bs => bs.getD i true
+
+/-- `NullBuffer::null_count()` -/
+def nullCount (bs : List Bool) : Nat := (bs.filter (fun b => !b)).length
+
+def b2n (b : Bool) : Nat := if b then 1 else 0
+
+/-- `child_has_no_nested_rep` -/
+def PArr.noList : PArr → Bool
+  | .leaf .. => true
+  | .strct _ _ c => c.noList
+  | .list .. => false
+
+/-- `LevelInfoBuilder::write_leaf(info, a..b)`; `d`/`k` = definition / repetition level of the
+parent context.  Three paths: all-null fast path, bulk fill (long, null-heavy ranges), and
+the per-element path. -/
+def writeLeaf (nl : Bool) (valid : Option (List Bool)) (d k a b : Nat) : Lv :=
+  let len := b - a
+  let maxDef := d + b2n nl
+  match valid with
+  | none => ⟨List.replicate len k, List.replicate len maxDef, List.range' a len⟩
+  | some bs =>
+    if nullCount bs = bs.length then Lv.uniform k (maxDef - 1) len
+    else if BULK_FILL_MIN_LEN ≤ len ∧ bs.length ≤ nullCount bs * BULK_FILL_NULL_FACTOR then
+      -- `nulls.slice(range.start, len)`, `valid_indices()`, `buf.resize(..); buf[base + i] = max_def`,
+      -- `non_null_indices.extend(valid_indices().map(|i| i + range.start))`
+      let rangeNulls := (bs.drop a).take len
+      let validIdx := (List.range len).filter (fun i => rangeNulls.getD i true)
+      ⟨List.replicate len k,
+       (List.range len).map (fun i => if rangeNulls.getD i true then maxDef else maxDef - 1),
+       validIdx.map (fun i => i + a)⟩
+    else
+      -- `range.map(|i| max_def - !valid(i))`, `BitIndexIterator(offset + start, len).map(|i| i + start)`
+      ⟨List.replicate len k,
+       (List.range' a len).map (fun i => maxDef - (if bs.getD i true then 0 else 1)),
+       ((List.range len).filter (fun i => bs.getD (a + i) true)).map (fun i => i + a)⟩
+
+/-- the run detection loop shared by `write_list_impl` (`run_kind`, `run_start`, flush on a
+change of classification) and `write_struct` (`last_null_idx` / `last_non_null_idx`):
+`n` slots still to look at, `i` the next slot, `(rk, rs)` the open run -/
+def runsLoop {κ : Type} [DecidableEq κ] (cls : Nat → κ) : Nat → Nat → κ → Nat → List (κ × Nat × Nat)
+  | 0, i, rk, rs => [(rk, rs, i)]
+  | n + 1, i, rk, rs =>
+    if cls i ≠ rk then (rk, rs, i) :: runsLoop cls n (i + 1) (cls i) i
+    else runsLoop cls n (i + 1) rk rs
+
+/-- maximal runs of equal classification of the slots `a..b` -/
+def runsOf {κ : Type} [DecidableEq κ] (cls : Nat → κ) (a b : Nat) : List (κ × Nat × Nat) :=
+  if b ≤ a then [] else runsLoop cls (b - a - 1) (a + 1) (cls a) a
+
+/-- `write_struct` -/
+def writeStruct (nl : Bool) (valid : Option (List Bool)) (child : Nat → Nat → Nat → Nat → Lv) (d k a b : Nat) : Lv :=
+  let ctxDef := d + b2n nl
+  match valid with
+  | none => child ctxDef k a b
+  | some bs =>
+    if nullCount bs = bs.length then Lv.uniform k (ctxDef - 1) (b - a)
+    else Lv.cat ((runsOf (fun i => bs.getD i true) a b).map (fun run =>
+      if run.1 then child ctxDef k run.2.1 run.2.2 else Lv.uniform k (ctxDef - 1) (run.2.2 - run.2.1)))
+
+inductive SlotKind where
+  | null | empty | nonEmpty
+  deriving DecidableEq, Repr
+
+/-- re-stamping of `write_list_direct`: `rep_levels[batch_base + (offset - values_start)] = list_start_rep`
+for every slot of the run -/
+def stampDirect (o : Nat → Nat) (startRep s e : Nat) (reps : List Nat) : List Nat :=
+  (List.range' s (e - s)).foldl (fun l i => l.set (o i - o s) startRep) reps
+
+/-- the backward scan of `write_list_scan` over the reversed batch: count element starts
+(`rep ≤ ctx.rep_level`), stamp when the count reaches the next slot boundary -/
+def scanLoop (ctxRep startRep : Nat) : List Nat → Nat → List Nat → List Nat
+  | [], _, _ => []
+  | r :: rs, _, [] => r :: rs
+  | r :: rs, seen, bd :: bds =>
+    if r ≤ ctxRep then
+      if seen + 1 = bd then startRep :: scanLoop ctxRep startRep rs (seen + 1) bds
+      else r :: scanLoop ctxRep startRep rs (seen + 1) (bd :: bds)
+    else r :: scanLoop ctxRep startRep rs seen (bd :: bds)
+
+def stampScan (o : Nat → Nat) (ctxRep startRep s e : Nat) (reps : List Nat) : List Nat :=
+  (scanLoop ctxRep startRep reps.reverse 0
+    ((List.range' s (e - s)).reverse.map (fun i => o e - o i))).reverse
+
+/-- `write_list_impl` with `write_list_direct` or `write_list_scan` as `emit_non_empty_run` -/
+def writeListImpl (nl : Bool) (valid : Option (List Bool)) (offs : List Nat) (childNoList : Bool)
+    (child : Nat → Nat → Nat → Nat → Lv) (d k a b : Nat) : Lv :=
+  let ctxDef := d + b2n nl + 1
+  let o := fun i => offs.getD i 0
+  let cls := fun i =>
+    if !isValidAt valid i then SlotKind.null
+    else if o i = o (i + 1) then SlotKind.empty else SlotKind.nonEmpty
+  Lv.cat ((runsOf cls a b).map (fun run =>
+    match run.1 with
+    | .null => Lv.uniform k (ctxDef - 2) (run.2.2 - run.2.1)
+    | .empty => Lv.uniform k (ctxDef - 1) (run.2.2 - run.2.1)
+    | .nonEmpty =>
+      let c := child ctxDef (k + 1) (o run.2.1) (o run.2.2)
+      { c with reps := if childNoList then stampDirect o k run.2.1 run.2.2 c.reps
+                       else stampScan o (k + 1) k run.2.1 run.2.2 c.reps }))
+
+/-- `write_list`: the all-null fast path, else `write_list_impl` -/
+def writeList (nl : Bool) (valid : Option (List Bool)) (offs : List Nat) (childNoList : Bool)
+    (child : Nat → Nat → Nat → Nat → Lv) (d k a b : Nat) : Lv :=
+  match valid with
+  | some bs =>
+    if nullCount bs = bs.length then Lv.uniform k (d + b2n nl + 1 - 2) (b - a)
+    else writeListImpl nl valid offs childNoList child d k a b
+  | none => writeListImpl nl valid offs childNoList child d k a b
+
+/-- `LevelInfoBuilder::write(range)` -/
+def bwrite : PArr → Nat → Nat → Nat → Nat → Lv
+  | .leaf nl valid _, d, k, a, b => writeLeaf nl valid d k a b
+  | .strct nl valid c, d, k, a, b => writeStruct nl valid (bwrite c) d k a b
+  | .list nl valid offs c, d, k, a, b => writeList nl valid offs c.noList (bwrite c) d k a b
+
+/-- the textbook writer on the same arrays: one slot at a time, `r` = repetition level of the
+slot's first entry -/
+def slotLv : PArr → Nat → Nat → Nat → Nat → Lv
+  | .leaf nl valid _, d, _, r, i =>
+    if isValidAt valid i then ⟨[r], [d + b2n nl], [i]⟩ else ⟨[r], [d + b2n nl - 1], []⟩
+  | .strct nl valid c, d, k, r, i =>
+    if isValidAt valid i then slotLv c (d + b2n nl) k r i else ⟨[r], [d + b2n nl - 1], []⟩
+  | .list nl valid offs c, d, k, r, i =>
+    let o := fun i => offs.getD i 0
+    if !isValidAt valid i then ⟨[r], [d + b2n nl + 1 - 2], []⟩
+    else if o i = o (i + 1) then ⟨[r], [d + b2n nl + 1 - 1], []⟩
+    else (slotLv c (d + b2n nl + 1) (k + 1) r (o i)).app
+      (Lv.cat ((List.range' (o i + 1) (o (i + 1) - o i - 1)).map (slotLv c (d + b2n nl + 1) (k + 1) (k + 1))))
+
+/-- the textbook writer on a range of slots -/
+def rangeLv (arr : PArr) (d k a b : Nat) : Lv := Lv.cat ((List.range' a (b - a)).map (slotLv arr d k k))
+
+/-- array lengths, and well-formedness: validity buffers as long as the array, offsets
+non-decreasing and inside the child -/
+def PArr.len : PArr → Nat
+  | .leaf _ _ n => n
+  | .strct _ _ c => c.len
+  | .list _ _ offs _ => offs.length - 1
+
+def PArr.WF : PArr → Prop
+  | .leaf _ valid n => ∀ bs, valid = some bs → bs.length = n
+  | .strct _ valid c => (∀ bs, valid = some bs → bs.length = c.len) ∧ c.WF
+  | .list _ valid offs c =>
+    (∀ bs, valid = some bs → bs.length = offs.length - 1) ∧
+    (∀ i, i + 1 < offs.length → offs.getD i 0 ≤ offs.getD (i + 1) 0) ∧
+    (∀ i, i < offs.length → offs.getD i 0 ≤ c.len) ∧ c.WF
+
+/-! ### record assembly from levels (the reader side of Dremel)
+
+The entry stream of a list (or of a column) is cut in front of every entry whose repetition
+level says "a new element of this list starts here" (`rep ≤ lvl`); each piece is one
+element and is assembled with the rest of the path. -/
+
+/-- cut an entry stream in front of every entry with `rep ≤ lvl` (other than the first) -/
+def groups (lvl : Nat) : List Entry → List (List Entry)
+  | [] => []
+  | [e] => [[e]]
+  | e :: e' :: es =>
+    if lvl < e'.rep then
+      match groups lvl (e' :: es) with
+      | g :: gs => (e :: g) :: gs
+      | [] => [[e]]
+    else [e] :: groups lvl (e' :: es)
+
+/-- `mapM` for `Option` -/
+def mapOpt {α β : Type} (f : α → Option β) : List α → Option (List β)
+  | [] => some []
+  | x :: xs =>
+    match f x, mapOpt f xs with
+    | some y, some ys => some (y :: ys)
+    | _, _ => none
+
+/-- assemble the value of path `p` from exactly its own entries: `d` = definition level
+reached so far, `k` = number of enclosing lists -/
+def assemble : (p : List Layer) → (d k : Nat) → List Entry → Option (ValOf p)
+  | [], _, _, es =>
     match es with
-    | ⟨_, _, some v⟩ :: rest => some (v, rest)
+    | [⟨_, _, some v⟩] => some v
     | _ => none
-  | .opt :: p, fuel, d, k, es =>
+  | .opt :: p, d, k, es =>
     match es with
     | [] => none
-    | e :: rest =>
-      if e.dfn ≤ d then some ((none : Option (ValOf p)), rest)
-      else (assemble p fuel (d + 1) k es).map (fun r => ((some r.1 : Option (ValOf p)), r.2))
-  | .rep :: p, fuel, d, k, es =>
+    | e :: _ =>
+      if e.dfn ≤ d then some (none : Option (ValOf p))
+      else (assemble p (d + 1) k es).map (fun x => (some x : Option (ValOf p)))
+  | .rep :: p, d, k, es =>
     match es with
     | [] => none
-    | e :: rest =>
-      if e.dfn ≤ d then some (([] : List (ValOf p)), rest)
-      else
-        -- first element, then further elements while the next entry continues this list
-        let rec more : Nat → List Entry → Option (List (ValOf p) × List Entry)
-          | 0, es => some ([], es)
-          | f + 1, es =>
-            match es with
-            | [] => some ([], [])
-            | e :: _ =>
-              if e.rep = k + 1 then
-                match assemble p fuel (d + 1) (k + 1) es with
-                | none => none
-                | some (x, es') => (more f es').map (fun r => (x :: r.1, r.2))
-              else some ([], es)
-        match assemble p fuel (d + 1) (k + 1) es with
-        | none => none
-        | some (x, es') => (more fuel es').map (fun r => ((x :: r.1 : List (ValOf p)), r.2))
+    | e :: _ =>
+      if e.dfn ≤ d then some ([] : List (ValOf p))
+      else (mapOpt (assemble p (d + 1) (k + 1)) (groups (k + 1) es) : Option (List (ValOf p)))
 
-/-- assemble every row of a column -/
-def assembleCol (p : List Layer) : Nat → List Entry → Option (List (ValOf p))
-  | 0, es => if es.isEmpty then some [] else none
-  | fuel + 1, es =>
-    if es.isEmpty then some [] else
-    match assemble p es.length 0 0 es with
-    | none => none
-    | some (v, rest) => (assembleCol p fuel rest).map (v :: ·)
+/-- assemble every row of a column: rows start at repetition level 0 -/
+def assembleCol (p : List Layer) (es : List Entry) : Option (List (ValOf p)) :=
+  mapOpt (assemble p 0 0) (groups 0 es)
 
 end ArrowModel.C05
